@@ -1,5 +1,4 @@
 import AlphaG.Props.C15
-import AlphaG.Lemmas.Bytes
 import Mathlib.Tactic.Ring
 import Mathlib.Tactic.FieldSimp
 import Mathlib.Tactic.Linarith
